@@ -104,6 +104,8 @@ class PendingModule(PendingNode[Module]):
             self._insert_import_lib("itertools", OL_ITERTOOLS)
         if self.nsp_global.use_importlib:
             self._insert_import_lib("importlib", OL_IMPORTLIB)
+        if self.nsp_global.use_operator:
+            self._insert_import_lib("operator", OL_OPERATOR)
 
         if self.nsp_global.use_preset_iter_wrapper:
             from .presets import iter_wrapper_body
@@ -714,42 +716,34 @@ class PendingAssign(PendingNode[Assign | AnnAssign]):
 
 class PendingAugAssign(PendingNode[AugAssign]):
     _op_dict: dict[type[operator], str] = {
-        Add: "__iadd__",
-        BitAnd: "__iand__",
-        FloorDiv: "__ifloordiv__",
-        LShift: "__ilshift__",
-        Mod: "__imod__",
-        Mult: "__imul__",
-        MatMult: "__imatmul__",
-        BitOr: "__ior__",
-        Pow: "__ipow__",
-        RShift: "__irshift__",
-        Sub: "__isub__",
-        Div: "__itruediv__",
-        BitXor: "__ixor__",
+        Add: "iadd",
+        BitAnd: "iand",
+        FloorDiv: "ifloordiv",
+        LShift: "ilshift",
+        Mod: "imod",
+        Mult: "imul",
+        MatMult: "imatmul",
+        BitOr: "ior",
+        Pow: "ipow",
+        RShift: "irshift",
+        Sub: "isub",
+        Div: "itruediv",
+        BitXor: "ixor",
     }
 
-    def _aug_assign_expr(
-        self, target: expr, op: operator, value: expr, fallback: expr | None = None
-    ) -> expr:
-        op_name = self._op_dict[type(op)]
-        if fallback is None:
-            assert isinstance(target, Name)
-            fallback = NamedExpr(
-                target=target, value=BinOp(left=target, op=op, right=value)
-            )
-        return IfExp(  # type: ignore
-            test=Call(
-                func=Name(id="hasattr", ctx=Load()),
-                args=[target, Constant(value=op_name)],
-                keywords=[],
+    def _aug_assign_expr(self, target: expr, op: operator, value: expr) -> expr:
+        # operator.iadd(t, v) is the whole protocol of `t += v`: the in-place
+        # method if there is one, then the binary and the reflected method
+        # whenever NotImplemented is returned
+        self.nsp_global.use_operator = True
+        return Call(
+            func=Attribute(
+                value=Name(id=OL_OPERATOR, ctx=Load()),
+                attr=self._op_dict[type(op)],
+                ctx=Load(),
             ),
-            body=Call(
-                func=Attribute(value=target, attr=op_name, ctx=Load()),
-                args=[value],
-                keywords=[],
-            ),
-            orelse=fallback,
+            args=[target, value],
+            keywords=[],
         )
 
     def get_result(self) -> list[expr]:
@@ -758,18 +752,13 @@ class PendingAugAssign(PendingNode[AugAssign]):
         assign_value = expr_transf(self.nsp, self.node.value)
         if isinstance(self.node.target, Name):
             target = self.nsp.get_load_name(self.node.target.id)
-            _aug_expr = self._aug_assign_expr(
-                target,
-                self.node.op,
-                assign_value,
-                fallback=self.nsp.get_assign(
+            # x += v rebinds x to whatever the operation returns
+            return [
+                self.nsp.get_assign(
                     self.node.target.id,
-                    BinOp(left=target, op=self.node.op, right=assign_value),
-                ),
-            )
-            # x += v rebinds x to whatever the in-place method returns
-            _aug_expr.body = self.nsp.get_assign(self.node.target.id, _aug_expr.body)
-            return [_aug_expr]
+                    self._aug_assign_expr(target, self.node.op, assign_value),
+                )
+            ]
         elif isinstance(self.node.target, Subscript):
             # todo: could be optimized if slice is const
             tmp_slice_name = Name(id=ol_name(OL_AUGASSIGN_SLICE_TMP))
